@@ -124,6 +124,10 @@ class Module:
             elif isinstance(v, ast.Call) and isinstance(v.func, ast.Name) and v.func.id == "slice" and not v.keywords and 1 <= len(v.args) <= 3 \
                     and "slice" not in self.defs and "slice" not in self.imports and all(_closed_int(a) for a in v.args):
                 out[name] = (self, v)           # a named slice of constants: _BOUNDS = slice(_Column.LOWER, _Column.UPPER + 1), _ALL_ROWS = slice(None)
+            elif isinstance(v, ast.Tuple) and v.elts and all(
+                    isinstance(x, ast.Tuple) and x.elts and all(isinstance(y, ast.Constant) and (y.value is None or isinstance(y.value, (bool, int, float, str))) for y in x.elts)
+                    for x in v.elts):
+                out[name] = (self, v)           # an immutable table of scalar rows: _STEM_ESCAPES = (("%", "%25"), ("/", "%2F"))
             elif isinstance(v, ast.Tuple) and v.elts and all(isinstance(x, ast.Constant) and (x.value is None or isinstance(x.value, (bool, int, float, str)))
                                                              for x in v.elts):
                 out[name] = (self, v)           # an immutable tuple of scalar literals: RECORD_FIELDS = ("data", "actions", "metadata")
